@@ -88,7 +88,7 @@ class Check(FormulaCheck):
             'nested arrays, two-row array, host variable or range, in random permutations and partitions; or one conditional aggregate with 1-3 criteria of the '
             'three forms against equal-length numeric/text criteria ranges; or one propagating aggregate with an error item of each code at each position. '
             'non-trivial = compared with the exact reference; distinct = distinct formula + bindings.')
-    ASSUMPTIONS = ('numeric items only; with several modes MODE may report any of them; GEOMEAN/HARMEAN on positive items; LARGE on a flat array; SLOPE called as ys then xs scalars with integer xs',
+    ASSUMPTIONS = ('numeric items only; with several modes MODE may report any of them; GEOMEAN/HARMEAN on positive items; LARGE on a flat array; SLOPE called as ys then xs scalars, xs integers or integers in other units (x 1e-9 .. 1e6)',
                    'criteria are strings; comparison criteria on numeric cells, wildcard criteria on lower-case text cells; criterion numbers are read as doubles',
                    'nothing selected: 0 for SUMIF(S)/COUNTIF/MAXIFS, any error for AVERAGEIF(S)')
 
@@ -235,6 +235,21 @@ class Check(FormulaCheck):
                     ok = near(g, sum((Fr(x) - xm) * (Fr(y) - ym) for x, y in zip(px, xs)) / den, data_tolerance(xs) * 40)
                 self.expect('C11/SLOPE:differs-from-definition', ok, ys=xs, xs=px, got=g)
                 rec.nt(('slope', tuple(xs), tuple(px)))
+                # the same regression with x in other units (micro-, milli-, mega-): the definition is scale-free, so is the answer's accuracy
+                if den != 0 and rnd.random() < 0.5:
+                    sc = rnd.choice([1e-9, 1e-6, 1e-6, 1e-4, 1e-3, 1e3, 1e6])
+                    sx = [x * sc for x in px]
+                    ys2 = [rnd.randint(-50, 50) for _ in xs]
+                    xm2, ym2 = mean(sx), mean(ys2)
+                    den2 = sum((Fr(x) - xm2) ** 2 for x in sx)
+                    if den2 != 0:
+                        ref = sum((Fr(x) - xm2) * (Fr(y) - ym2) for x, y in zip(sx, ys2)) / den2
+                        self.e.bind(**{'v_y%d' % k: y for k, y in enumerate(ys2)})
+                        self.e.bind(**{'v_x%d' % k: x for k, x in enumerate(sx)})
+                        g = self.ev('SLOPE(%s,%s)' % (','.join('v_y%d' % k for k in range(len(ys2))), ','.join('v_x%d' % k for k in range(len(sx)))))
+                        ok = finite(g) and abs(Fr(g) - ref) <= Fr(1, 10 ** 8) * max(abs(ref), Fr(1, 10 ** 6) / Fr(sc))
+                        self.expect('C11/SLOPE:differs-from-definition:scaled-x', ok, ys=ys2, xs=sx, got=g, expected=float(ref))
+                        rec.nt(('slope-scaled', tuple(ys2), tuple(sx)))
             rec.sample({'items': xs, 'example': 'AVERAGE(%s)' % self.render(xs, rnd)[0][:120]})
 
     # ------------------------------------------------------------------ conditional aggregates
